@@ -250,6 +250,10 @@ FUNCS = [
 	dict(name='calc_file_signature', file='sigs/calc.py', qual='calc_file_signature', module='PyCalcFile', env=[('RECS', 'List (List UInt8)')],
 	     params=[('kspec', KSPEC), ('seqfile', ('obj',)), ('accumulator', OPT(('acc',)))], ret=LIST(INT),
 	     opaque={'seqfile.parse()': ('()', ('obj',)), '(record.seq for record in records)': ('RECS', LIST(BYTES))}),
+	# --- sigs/base.py: equality of two sequences of signatures (np.array_equal of two integer arrays = equal length and equal entries)
+	dict(name='sigarray_eq', file='sigs/base.py', qual='sigarray_eq', module='PySigEq', env=[],
+	     params=[('a1', LIST(LIST(INT))), ('a2', LIST(LIST(INT)))], ret=BOOL,
+	     opaque={'all(map(np.array_equal, a1, a2))': ('((List.zipWith (fun (x y : List Int) => x == y) s.a1 s.a2).all id)', BOOL)}),
 	# --- cluster.py: linkage matrix -> tree (heights as exact integers; link rows = (left, right, height, size))
 	dict(name='linkage_to_bio_tree', file='cluster.py', qual='linkage_to_bio_tree', module='PyCluster', env=[],
 	     params=[('link', LIST(TUP(INT, INT, INT, INT))), ('labels', LIST(NUM))], ret=REC('Clade'), locals={'clades': LIST(REC('Clade'))}),
